@@ -21,6 +21,7 @@
 import PenneModel.Scope.VarsSkip
 import PenneModel.Scope.VarsTrace
 import PenneModel.Scope.VarsAccept
+import PenneModel.Scope.VarsDynCF
 
 namespace Vars
 
